@@ -47,7 +47,7 @@ Fixpoint marG (fuel : nat) (t : ty) (x : pv) {struct fuel} : res pv :=
     | TSeq k a => bind (itervalues rt x) (fun vs => bind (mapM (marG n a) vs) (fun rs => Ok (PSeq KList rs)))
     | TMap k kt vt =>
         bind (iteritems rt E x) (fun kvs =>
-        bind (mapM (map_step (marG n) kt vt) kvs) (fun rs => construct_map rt KDict rs))
+        bind (mapM (hashing rt fst (map_step (marG n) kt vt)) kvs) (fun rs => construct_map rt KDict rs))
     | TTuple ts =>
         bind (itervalues rt x) (fun vs =>
         bind (mapM (fun tv => marG n (fst tv) (snd tv)) (zip_trunc ts vs)) (fun rs => Ok (PSeq KList rs)))
